@@ -400,6 +400,10 @@ class ErrorStack(deque):
             if mxdir in frame.filename and frame.name == "on_eval_formula":
                 self.on_eval_flag = True
             elif not mxdir in frame.filename and self.on_eval_flag:
+                if not rolledback:
+                    # The frames left are of an earlier propagation of
+                    # the exception object, or of a traceback it was given
+                    break
                 node = rolledback.pop()
                 self.append(
                     (node, frame.lineno, tb.tb_frame.f_locals.copy())
